@@ -10,6 +10,7 @@ import (
 	"errors"
 	"fmt"
 	"io"
+	"mime"
 	"net/http"
 	"net/http/httptest"
 	"regexp"
@@ -397,19 +398,10 @@ func c12ExpectedType(c c12HTTPCase) string {
 	if i := strings.IndexAny(p, "?#"); i >= 0 {
 		p = p[:i]
 	}
-	switch {
-	case strings.HasSuffix(p, ".html"):
-		return "text/html"
-	case strings.HasSuffix(p, ".css"):
-		return "text/css"
-	case strings.HasSuffix(p, ".js"):
-		return "application/javascript"
-	case strings.HasSuffix(p, ".json"):
-		return "application/json"
-	case strings.HasSuffix(p, ".svg"):
-		return "image/svg+xml"
-	case strings.HasSuffix(p, ".xml"):
-		return "text/xml"
+	// the type the platform registers for the extension (the standard library's table: case-insensitive, knows
+	// .htm and .mjs as well)
+	if i := strings.LastIndexByte(p, '.'); i >= 0 && !strings.Contains(p[i:], "/") {
+		return mime.TypeByExtension(p[i:])
 	}
 	return ""
 }
@@ -635,7 +627,14 @@ func C12(run *core.Run) {
 		}
 		ext := map[string]string{"text/html": ".html", "text/css": ".css", "application/javascript": ".js", "application/json": ".json", "image/svg+xml": ".svg", "text/xml": ".xml"}[in.mt]
 		for _, mw := range []string{"ResponseWriter", "Middleware", "MiddlewareWithError"} {
-			for _, target := range []string{"/f" + ext, "/f", "/dir.d/f" + ext + "?v=1.2", "/f" + ext + "?x=a.png", "/f.bin", "/"} {
+			targets := []string{"/f" + ext, "/f", "/dir.d/f" + ext + "?v=1.2", "/f" + ext + "?x=a.png", "/f.bin", "/", "/F" + strings.ToUpper(ext), "/docs/Index" + strings.ToUpper(ext[:2]) + ext[2:]}
+			switch ext {
+			case ".html":
+				targets = append(targets, "/index.htm")
+			case ".js":
+				targets = append(targets, "/module.mjs")
+			}
+			for _, target := range targets {
 				for _, ct := range []string{"", in.mt, in.mt + "; charset=utf-8", "application/octet-stream"} {
 					for flags := 0; flags < 8; flags++ {
 						c := c12HTTPCase{target: target, contentType: ct, setLength: flags&1 != 0, callWriteHeader: flags&2 != 0, flushFirst: flags&4 != 0, chunks: 1 + (flags+len(target))%3, mw: mw, in: in}
